@@ -60,6 +60,9 @@ var unicodeFns = []ufn{
 func unicodePrograms(r *rand.Rand, quick bool) []*tprog {
 	var out []*tprog
 	per := 5
+	if quick {
+		per = 8
+	}
 	for i := 0; i < len(unicodeFns); i += per {
 		j := i + per
 		if j > len(unicodeFns) {
